@@ -2,7 +2,7 @@
 // tree under test by `go build -overlay` (as <module>/verifvfs) and `os.X` is rewritten to `verifvfs.X` in dir.go by
 // vlib/p_crash.py; nothing is written into the tree.
 //
-// Every *mutating* call (MkdirAll, CreateTemp, WriteFile, Rename, Remove, and Write/Close on a handle that was opened
+// Every *mutating* call (MkdirAll, CreateTemp, WriteFile, Rename, Remove, Chtimes, and Write/Close on a handle that was opened
 // for writing) is
 //
 //   - logged with root-relative canonical paths (the random suffix of a temporary file becomes `#`), and
@@ -23,6 +23,7 @@ import (
 	"strings"
 	"sync"
 	"syscall"
+	"time"
 )
 
 type FileInfo = os.FileInfo
@@ -208,6 +209,15 @@ func Open(name string) (*File, error) {
 func Remove(name string) error {
 	k := announce(name, "remove %s", rel(name))
 	err := os.Remove(name)
+	result(k, err)
+	return err
+}
+
+// Chtimes changes metadata only (never a name or a content); it is a mutating call of the trace and a crash point like
+// the others - the directory copy taken before it equals the one taken after it up to the times
+func Chtimes(name string, atime, mtime time.Time) error {
+	k := announce(name, "chtimes %s", rel(name))
+	err := os.Chtimes(name, atime, mtime)
 	result(k, err)
 	return err
 }
